@@ -89,7 +89,8 @@ func blocksOutside(n ast.Node) bool {
 			found = true
 		case *ast.CallExpr:
 			if se, ok := v.Fun.(*ast.SelectorExpr); ok {
-				if se.Sel.Name == "Wait" && len(v.Args) == 0 {
+				if se.Sel.Name == "Wait" {
+					// wg.Wait(), cond.Wait(), limiter.Wait(n): all may sleep or block
 					found = true
 				}
 				if isSel(v.Fun, "time", "Sleep") {
